@@ -1336,11 +1336,11 @@ class BaseSQL(
         project = None
 
         if len(p) > 3:
-            if "." in p:
-                schema = p_list[-3]
-                table_name = p_list[-1]
-                if len(p) == 6:
-                    project = p_list[1]
+            # id DOT id [DOT id]: the DOT token may hold more than one dot (db..table)
+            schema = p_list[-3]
+            table_name = p_list[-1]
+            if len(p) == 6:
+                project = p_list[1]
         else:
             table_name = p_list[-1]
             schema = None
